@@ -1,0 +1,70 @@
+//! Verification hooks (compiled only with `--cfg grafeo_verif`).
+//!
+//! A single process-wide handler can be installed by a test harness. Every hook
+//! site in the code base funnels through [`hook`]; with no handler installed a
+//! hook is one relaxed atomic load. Sites are placed where the code holds no
+//! internal lock.
+
+use std::sync::atomic::{AtomicUsize, Ordering};
+
+/// Handler signature: `(site, a, b) -> u64`. The meaning of the arguments and of
+/// the result depends on the kind of site (yield point, event, flag, fail point).
+pub type Handler = fn(site: &'static str, a: u64, b: u64) -> u64;
+
+static HANDLER: AtomicUsize = AtomicUsize::new(0);
+
+/// Installs the process-wide handler.
+pub fn install(handler: Handler) {
+    HANDLER.store(handler as usize, Ordering::SeqCst);
+}
+
+/// Removes the handler.
+pub fn uninstall() {
+    HANDLER.store(0, Ordering::SeqCst);
+}
+
+/// Calls the handler if one is installed, otherwise returns 0.
+#[inline]
+pub fn hook(site: &'static str, a: u64, b: u64) -> u64 {
+    let raw = HANDLER.load(Ordering::Relaxed);
+    if raw == 0 {
+        return 0;
+    }
+    // SAFETY: `raw` was produced from a `Handler` in `install`.
+    #[allow(unsafe_code)]
+    let handler: Handler = unsafe { std::mem::transmute::<usize, Handler>(raw) };
+    handler(site, a, b)
+}
+
+/// A point where a scheduler may switch threads or inject a delay.
+#[inline]
+pub fn yield_point(site: &'static str) {
+    hook(site, 0, 0);
+}
+
+/// Reports an event with two arguments.
+#[inline]
+pub fn event(site: &'static str, a: u64, b: u64) {
+    hook(site, a, b);
+}
+
+/// A named switch; `false` unless the handler turns it on.
+#[inline]
+pub fn flag(name: &'static str) -> bool {
+    hook(name, 0, 0) != 0
+}
+
+/// A point where the handler can make the operation fail.
+#[inline]
+pub fn fail_point(site: &'static str) -> bool {
+    hook(site, 0, 0) != 0
+}
+
+/// A value the handler may override (returns `default` when it answers 0).
+#[inline]
+pub fn override_u64(name: &'static str, default: u64) -> u64 {
+    match hook(name, default, 0) {
+        0 => default,
+        v => v,
+    }
+}
